@@ -40,7 +40,7 @@ def _seen(topo, tok):
 
 
 def api_cases():
-    for fn, scheme, method, how in itertools.product(["request", "stream"], ["http", "https"], ["GET", "POST"], ["read", "early-exit", "raise-inside"]):
+    for fn, scheme, method, how in itertools.product(["request", "stream"], ["http", "https"], ["GET", "POST"], ["read", "early-exit", "raise-inside", "read-then-raise"]):
         if fn == "request" and how != "read":
             continue
         yield ("api", fn, scheme, method, how)
@@ -48,6 +48,10 @@ def api_cases():
         yield ("with-pool", variant, ct, how)
     for variant, scheme, how in itertools.product(["sync", "async"], ["http", "https"], ["clean", "raise-inside", "wrong-origin"]):
         yield ("with-connection", variant, scheme, how)
+    for variant, scheme in itertools.product(["sync", "async"], ["http", "https"]):
+        yield ("bare-h11", variant, scheme)
+    for state in ("readable", "idle", "peer-closed", "closed", "none"):
+        yield ("socket-readable", state)
     for variant, url in itertools.product(["sync", "async"], ["ftp://a.example/x", "//a.example/x", "a.example/x", "gopher://a.example:70/", "HTTP://a.example/t/u"]):
         yield ("scheme", variant, url)
 
@@ -88,6 +92,9 @@ def run_case(case):
                 with httpcore.stream(method, url, headers=hdrs, content=body) as r:
                     if how == "read":
                         got["r"] = (r.status, r.read())
+                    elif how == "read-then-raise":
+                        got["r"] = (r.status, r.read())     # the connection goes back to the private pool as idle ...
+                        raise _Boom()                       # ... and then the caller's own code fails
                     elif how == "raise-inside":
                         raise _Boom()
                     else:
@@ -101,7 +108,7 @@ def run_case(case):
         if res[0] != "ok":
             bad("C15", "api-call-failed", f"httpcore.{fn}() did not complete: {res[0]}: {exc_class(res[1]) if res[0] == 'exc' else res[1]}: {res[1]}")
             return out
-        if how == "read" and got.get("r") != (200, b"<api>"):
+        if how in ("read", "read-then-raise") and got.get("r") != (200, b"<api>"):
             bad("C01", "api-response", f"httpcore.{fn}() returned {got.get('r')}")
         still = [repr(t) for t in w.net.open_transports()]
         if still:
@@ -204,6 +211,96 @@ def run_case(case):
         still = [repr(t) for t in w.net.open_transports()]
         if still:
             bad("C06", "with-connection-stream-left-open", f"streams still open after leaving 'with connection:' ({how}): {still}")
+        return out
+
+    if kind == "bare-h11":
+        # an HTTP11Connection object used directly (as the tunnel and SOCKS connections use it): its own origin gate, near-miss URLs
+        _, variant, scheme = case
+        ct = "h11" if scheme == "http" else "h11tls"
+        topo, w = _world(ct, variant)
+        port = 8080 if scheme == "http" else 8443
+        dflt = 80 if scheme == "http" else 443
+        other = "https" if scheme == "http" else "http"
+        origin = httpcore.Origin(scheme.encode(), b"a.example", port)
+        near = [f"{scheme}://a.example/t/n1", f"{scheme}://a.example:{dflt}/t/n2", f"{other}://a.example:{port}/t/n3", f"{scheme}://b.example:{port}/t/n4",
+                f"{scheme}://a.example:{port + 1}/t/n5"]
+        good = f"{scheme}://a.example:{port}/t/ok"
+        got = {"near": []}
+        if variant == "sync":
+            def prog():
+                stream = w.backend.connect_tcp("a.example", port)
+                conn = httpcore.HTTP11Connection(origin=origin, stream=stream, keepalive_expiry=5.0)
+                got["first"] = conn.request("GET", good).status
+                for u in near:
+                    try:
+                        conn.request("GET", u)
+                        got["near"].append((u, "sent"))
+                    except RuntimeError:
+                        got["near"].append((u, "refused"))
+                    except Exception as e:
+                        got["near"].append((u, exc_class(e)))
+                got["last"] = conn.request("GET", good).status
+                conn.close()
+            res = w.run(sync_fn=prog)
+        else:
+            async def aprog():
+                stream = await w.backend.connect_tcp("a.example", port)
+                conn = httpcore.AsyncHTTP11Connection(origin=origin, stream=stream, keepalive_expiry=5.0)
+                got["first"] = (await conn.request("GET", good)).status
+                for u in near:
+                    try:
+                        await conn.request("GET", u)
+                        got["near"].append((u, "sent"))
+                    except RuntimeError:
+                        got["near"].append((u, "refused"))
+                    except Exception as e:
+                        got["near"].append((u, exc_class(e)))
+                got["last"] = (await conn.request("GET", good)).status
+                await conn.aclose()
+            res = w.run(async_fn=aprog)
+        if res[0] != "ok" or got.get("first") != 200 or got.get("last") != 200:
+            bad("C15", "bare-connection-failed", f"direct use of an HTTP11Connection did not complete: {res[0]}: {res[1]} got={got}")
+            return out
+        wrong = [x for x in got["near"] if x[1] != "refused"]
+        leaked = [n for n in (b"/t/n1", b"/t/n2", b"/t/n3", b"/t/n4", b"/t/n5") if any(n in bytes(t.written) for t in w.net.transports)]
+        if wrong or leaked:
+            bad("C10", "wrong-origin-sent", f"a connection made for {scheme}://a.example:{port} accepted requests for other origins: {wrong}; targets seen on its stream: {leaked}")
+        return out
+
+    if kind == "socket-readable":
+        # httpcore._utils.is_socket_readable on real (local, unconnected-to-anything) socket pairs: a boolean for every state, never an exception
+        import socket as _socket
+        from httpcore._utils import is_socket_readable
+        a, b = _socket.socketpair()
+        try:
+            state = case[1]
+            want = None
+            if state == "readable":
+                b.send(b"x")
+                arg, want = a, True
+            elif state == "idle":
+                arg, want = a, False
+            elif state == "peer-closed":
+                b.close()
+                arg, want = a, True
+            elif state == "closed":
+                a.close()
+                arg, want = a, True
+            else:
+                arg, want = None, True
+            try:
+                r = is_socket_readable(arg)
+            except Exception as e:
+                bad("C15", "undocumented-exception", f"is_socket_readable({state} socket) raised {exc_class(e)}: {e} (it is called from has_expired() inside every pool pass)", leaked=exc_class(e))
+                return out
+            if bool(r) != want:
+                bad("C09", "socket-readable", f"is_socket_readable({state} socket) returned {r!r}, expected {want}")
+        finally:
+            for s_ in (a, b):
+                try:
+                    s_.close()
+                except Exception:       # noqa
+                    pass
         return out
 
     if kind == "scheme":
